@@ -56,6 +56,10 @@ def make_jobs(ctx):
     for i in range(ngr):
         jobs.append(('net', {'seed': rng.randrange(1 << 30), 'kind': 'grammar', 'fold': i % 3 == 0, 'mode': rng.choice(['mix', 'mix', 'mix', 'min', 'all', 'adv']),
                              'integer': i % 2 == 0, 'dim': [1, 1, 2][i % 3]}))
+    ncu = 50 if ctx.quick else 600
+    for i in range(ncu):
+        jobs.append(('net', {'seed': rng.randrange(1 << 30), 'kind': 'custom', 'variant': cn.VARIANTS[i % len(cn.VARIANTS)], 'fold': i % 3 == 1,
+                             'mode': rng.choice(['mix', 'mix', 'min', 'adv']), 'integer': i % 2 == 0}))
     nx = 40 if ctx.quick else 500
     for i in range(nx):
         jobs.append(('net', {'seed': rng.randrange(1 << 30), 'kind': 'xnet', 'fold': i % 3 == 0, 'mode': rng.choice(['mix', 'mix', 'min', 'adv']),
@@ -354,7 +358,10 @@ def run(ctx):
             if kind in seen:
                 continue
             seen.add(kind)
-            fails.append((key_of(kind, job), {'case': {'job': job, 'arch': o['arch']}, 'switches': o.get('switches'), 'detail': [f for f in o['fails']][:6], 'trace': o.get('trace')},
+            key = key_of(kind, job)
+            if o.get('twosite_mismatch'):
+                key = 'two-call-sites-different-producer-masks'
+            fails.append((key, {'case': {'job': job, 'arch': o['arch']}, 'switches': o.get('switches'), 'detail': [f for f in o['fails']][:6], 'trace': o.get('trace')},
                           '%s on the implementation (fold_bn=%s, %s): %s' % (kind, job['fold'], o['arch'], info)))
     for c in lays:
         j = c['job']
